@@ -120,6 +120,25 @@ TEMPLATES = [
       flags=dict(yearfirst=True)),
     T("yf_slash_noflag", "day", lambda d: "%s/%02d/%02d" % (
         Y(d), d.month, d.day)),
+    # more month-name and numeric spellings
+    T("d_month_y", "day", lambda d: "%d %s %s" % (
+        d.day, MONTHSF[d.month - 1], Y(d))),
+    T("month_d_y_nocomma_hm", "min", lambda d: "%s %d %s %02d:%02d" % (
+        MONTHSF[d.month - 1], d.day, Y(d), d.hour, d.minute)),
+    T("mon-d-y", "day", lambda d: "%s-%02d-%s" % (
+        MONTHS3[d.month - 1], d.day, Y(d))),
+    T("y_mon_d_hms", "s", lambda d: "%s %s %02d %02d:%02d:%02d" % (
+        Y(d), MONTHS3[d.month - 1], d.day, d.hour, d.minute, d.second)),
+    T("yf_dot_date", "day", lambda d: "%s.%02d.%02d" % (
+        Y(d), d.month, d.day)),
+    T("iso_sp_min", "min", lambda d: "%s-%02d-%02d %02d:%02d" % (
+        Y(d), d.month, d.day, d.hour, d.minute)),
+    T("wd_iso_s", "s", lambda d: "%s %s-%02d-%02d %02d:%02d:%02d" % (
+        WD3[d.weekday()], Y(d), d.month, d.day, d.hour, d.minute, d.second)),
+    T("time_first_iso", "s", lambda d: "%02d:%02d:%02d %s-%02d-%02d" % (
+        d.hour, d.minute, d.second, Y(d), d.month, d.day)),
+    T("iso_T_s_lower", "s", lambda d: ("%s-%02d-%02dt%02d:%02d:%02d" % (
+        Y(d), d.month, d.day, d.hour, d.minute, d.second))),
     # two-digit years (pivot clause)
     T("us_slash_yy", "min", lambda d: "%02d/%02d/%02d %02d:%02d" % (
         d.month, d.day, d.year % 100, d.hour, d.minute), twodigit=True),
